@@ -701,3 +701,98 @@ Proof.
   destruct (nthq s b) as [y|] eqn:Eb; [|contradiction].
   destruct f; [eapply step_get_fn|eapply step_get_meth]; eauto.
 Qed.
+
+(** a set request that is not accepted raises and leaves the state untouched *)
+Lemma set_not_done_rejected s o :
+  set_parts o <> None -> snd (step s o) <> Done -> exists e, step s o = (s, Raised e).
+Proof.
+  intros P H. destruct (set_parts o) as [[[[cv oa] ob] r]|] eqn:P'; [|contradiction].
+  destruct (step_set_shape s o cv oa ob r P') as [[E [e He]]|[D _]]; [|contradiction].
+  exists e. rewrite (surjective_pairing (step s o)). now rewrite E, He.
+Qed.
+
+Lemma reject_corr_lemma s f a b r :
+  (measured_id s a = false \/ measured_id s b = false \/ std_of s a == 0 \/ std_of s b == 0 \/ r < -1 \/ 1 < r) ->
+  exists e, step s (SetCorr f (Ref a) (Ref b) (ANum r)) = (s, Raised e).
+Proof.
+  intros H. apply set_not_done_rejected; [discriminate|].
+  intros D. apply accept_iff_corr in D. destruct D as (Ma & Mb & Sa & Sb & Hr).
+  destruct H as [H|[H|[H|[H|[H|H]]]]]; try congruence; try contradiction; lra.
+Qed.
+
+Lemma reject_cov_lemma s f a b c :
+  (measured_id s a = false \/ measured_id s b = false \/ std_of s a == 0 \/ std_of s b == 0 \/
+   c / (std_of s a * std_of s b) < -1 \/ 1 < c / (std_of s a * std_of s b)) ->
+  exists e, step s (SetCov f (Ref a) (Ref b) (ANum c)) = (s, Raised e).
+Proof.
+  intros H. apply set_not_done_rejected; [discriminate|].
+  intros D. apply accept_iff_cov in D. destruct D as (Ma & Mb & Sa & Sb & Hr).
+  destruct H as [H|[H|[H|[H|[H|H]]]]]; try congruence; try contradiction; lra.
+Qed.
+
+(** anything that is not a registered quantity (a number, a string) in either position is rejected *)
+Lemma reject_notq_lemma s o cv oa ob r :
+  set_parts o = Some (cv, oa, ob, r) -> (oa = NotQ \/ ob = NotQ) -> exists e, step s o = (s, Raised e).
+Proof.
+  intros P H. apply set_not_done_rejected; [congruence|].
+  intros D. destruct (accepted_consistent s o cv oa ob r P D) as (a & b & -> & -> & _).
+  destruct H; discriminate.
+Qed.
+
+(** ---- a record is the covariance at the time of recording: later writes of .error / .value do not touch it ---- *)
+Lemma nth_error_set_nth {A} (l : list A) n x m :
+  nth_error (set_nth l n x) m =
+  if Nat.eqb m n then (match nth_error l n with Some _ => Some x | None => None end) else nth_error l m.
+Proof.
+  unfold set_nth. revert n m. induction l as [|y l IH]; intros n m.
+  - destruct n, m; simpl; try reflexivity. destruct (Nat.eqb m n); reflexivity.
+  - destruct n as [|n].
+    + destruct m; reflexivity.
+    + destruct m as [|m]; [reflexivity|]. simpl. apply IH.
+Qed.
+
+Lemma get_offdiag cv s c d :
+  c <> d ->
+  get cv s c d =
+  if measured_id s c && measured_id s d && negb (Qeq_bool (std_of s c) 0 || Qeq_bool (std_of s d) 0)
+  then match lookup (mkkey c d) (recs s) with Some (corr, cov) => if cv then cov else corr | None => 0 end
+  else 0.
+Proof.
+  intros Hne. unfold get, measured_id, std_of.
+  destruct (nthq s c) as [x|], (nthq s d) as [y|]; simpl; try reflexivity;
+    try (destruct (is_measured x); reflexivity).
+  destruct (is_measured x && is_measured y); [|reflexivity]. simpl.
+  unfold measured_get. destruct (Qeq_bool (q_std x) 0 || Qeq_bool (q_std y) 0); [reflexivity|]. simpl.
+  destruct (Nat.eqb_spec c d); [contradiction|reflexivity].
+Qed.
+
+Definition is_attr_write (o : op) : bool := match o with SetErr _ _ | SetValue _ => true | _ => false end.
+
+Lemma attr_write_measured s o m :
+  is_attr_write o = true -> measured_id (fst (step s o)) m = measured_id s m.
+Proof.
+  destruct o; try discriminate; intros _; simpl.
+  - destruct (nthq s a) as [x|] eqn:Ha; [|reflexivity]. destruct (is_measured x) eqn:Mx; [|reflexivity].
+    destruct (negb (Qle_bool 0 e)); [reflexivity|]. unfold measured_id, nthq. simpl.
+    rewrite nth_error_set_nth. destruct (Nat.eqb_spec m a) as [->|]; [|reflexivity].
+    unfold nthq in Ha. rewrite Ha. simpl. unfold is_measured in *. simpl. now rewrite Mx.
+  - destruct (nthq s a) as [x|] eqn:Ha; [|reflexivity]. destruct (is_measured x) eqn:Mx; [|reflexivity].
+    unfold measured_id, nthq. simpl.
+    rewrite nth_error_set_nth. destruct (Nat.eqb_spec m a) as [->|]; [|reflexivity].
+    unfold nthq in Ha. rewrite Ha. simpl. now rewrite Mx.
+Qed.
+
+Lemma record_persists_lemma s o cv c d :
+  is_attr_write o = true -> c <> d ->
+  ~ std_of s c == 0 -> ~ std_of s d == 0 ->
+  ~ std_of (fst (step s o)) c == 0 -> ~ std_of (fst (step s o)) d == 0 ->
+  get cv (fst (step s o)) c d = get cv s c d.
+Proof.
+  intros W Hne S1 S2 S3 S4. rewrite !(get_offdiag _ _ c d Hne).
+  rewrite !(attr_write_measured s o _ W).
+  assert (R : recs (fst (step s o)) = recs s).
+  { apply step_recs_other; destruct o; try discriminate; reflexivity. }
+  rewrite R.
+  rewrite (proj2 (Qeq_bool_false_neq _ _) S1), (proj2 (Qeq_bool_false_neq _ _) S2),
+          (proj2 (Qeq_bool_false_neq _ _) S3), (proj2 (Qeq_bool_false_neq _ _) S4). reflexivity.
+Qed.
